@@ -169,7 +169,7 @@ theorem good_reorganize (s : NState) (d : Nat) (attach : List Block) (h : Good s
 theorem good_setPool (s : NState) (p : Tx → Bool) (h : Good s) : Good { s with pool := s.pool.filter p } :=
   ⟨h.stack, poolInv_filter _ _ h.pool⟩
 
-theorem good_known (s : NState) (k : List Block) (h : Good s) : Good { s with known := k } := ⟨h.stack, h.pool⟩
+theorem good_known (s : NState) (b : Block) (h : Good s) : Good (addKnown s b) := ⟨h.stack, h.pool⟩
 theorem good_orphans (s : NState) (k : List Block) (h : Good s) : Good { s with orphans := k } := ⟨h.stack, h.pool⟩
 
 theorem good_cleanPool (s : NState) (h : Good s) : Good (cleanPool s) :=
